@@ -1,4 +1,6 @@
-// gotrans: source-to-Gallina translator for a small, loop-free subset of Go.
+// gotrans: source-to-Gallina translator for a small subset of Go (phase 1: loop-free functions;
+// phase 2, ext.go: for loops and self-recursion on explicit fuel, *int parameters, maps, struct
+// variables, package-level tables and calls of methods of abstract objects).
 //
 // Loads /repo with full type information and translates a WHITELIST of small pure functions
 // into Gallina definitions (coq/Gen/Funcs.v, names g_<pkg>_<Func>), written in terms of
@@ -6,7 +8,7 @@
 // generated function equal to the hand-written model the property theorems are about, so a
 // change of such a Go function changes the generated definition and breaks a proof obligation.
 //
-// The tool only emits `Definition`s.  It never guesses: any construct outside the supported
+// The tool only emits `Definition`s and `Fixpoint`s (never Axiom / Parameter).  It never guesses: any construct outside the supported
 // subset makes the translation of that function fail; the function (and every function that
 // calls it) is then OMITTED from Funcs.v, a comment records function, position and construct,
 // the same text goes to stderr and the exit status is 3 (so that the equivalence lemma of
@@ -35,9 +37,10 @@ import (
 const modPath = "github.com/cloudwego/gopkg/"
 
 var pkgShort = map[string]string{
-	modPath + "protocol/thrift":   "thrift",
-	modPath + "protocol/ttheader": "ttheader",
-	modPath + "container/strmap":  "strmap",
+	modPath + "protocol/thrift":      "thrift",
+	modPath + "protocol/ttheader":    "ttheader",
+	modPath + "container/strmap":     "strmap",
+	modPath + "protocol/thrift/base": "base",
 }
 
 type fnSpec struct{ pkg, recv, name string }
@@ -83,6 +86,33 @@ var whitelist = []fnSpec{
 	{"ttheader", "", "Bytes2Uint8"}, {"ttheader", "", "Bytes2Uint16"},
 	{"ttheader", "", "ReadString2BLen"}, {"ttheader", "", "IsStreaming"},
 	{"ttheader", "", "IsTTHeader"}, {"ttheader", "", "checkProtocolID"},
+	// phase 2: loops, *int parameters, maps, an abstract reader (decode.go)
+	{"ttheader", "", "readIntKVInfo"}, {"ttheader", "", "readStrKVInfo"}, {"ttheader", "", "readACLToken"},
+	{"ttheader", "", "readKVInfo"}, {"ttheader", "", "Decode"},
+	// the generic skip template over an abstract SkipN (skipdecoder_tpl.go): recursion, loops
+	{"thrift", "SkipDecoderTpl", "Skip"},
+	// BufferReader over an abstract bufiox.Reader (bufferreader.go): the skipper and what it calls
+	{"thrift", "BufferReader", "next"}, {"thrift", "BufferReader", "skipn"}, {"thrift", "BufferReader", "ReadI32"},
+	{"thrift", "BufferReader", "skipstr"}, {"thrift", "BufferReader", "ReadFieldBegin"},
+	{"thrift", "BufferReader", "ReadMapBegin"}, {"thrift", "BufferReader", "ReadListBegin"},
+	{"thrift", "BufferReader", "skipType"}, {"thrift", "BufferReader", "Skip"},
+	// the shipped FastCodec structs (base/k-base.go): goto to trailing error labels, fields stored
+	// through the pointer receiver, thrift.Binary.Skip as an external function
+	{"base", "Base", "FastRead"}, {"base", "BaseResp", "FastRead"},
+}
+
+// Coq names that differ from g_<pkg>_<Func> (methods of several types with the same name)
+var coqNameOf = map[fnSpec]string{
+	{"thrift", "SkipDecoderTpl", "Skip"}: "g_thrift_SkipDecoderTpl_Skip",
+	{"thrift", "BufferReader", "next"}:   "g_thrift_BufferReader_next", {"thrift", "BufferReader", "skipn"}: "g_thrift_BufferReader_skipn",
+	{"thrift", "BufferReader", "ReadI32"}: "g_thrift_BufferReader_ReadI32", {"thrift", "BufferReader", "skipstr"}: "g_thrift_BufferReader_skipstr",
+	{"thrift", "BufferReader", "ReadFieldBegin"}: "g_thrift_BufferReader_ReadFieldBegin",
+	{"thrift", "BufferReader", "ReadMapBegin"}:   "g_thrift_BufferReader_ReadMapBegin",
+	{"thrift", "BufferReader", "ReadListBegin"}:  "g_thrift_BufferReader_ReadListBegin",
+	{"thrift", "BufferReader", "skipType"}:       "g_thrift_BufferReader_skipType",
+	{"thrift", "BufferReader", "Skip"}:           "g_thrift_BufferReader_Skip",
+	{"base", "Base", "FastRead"}:                 "g_base_Base_FastRead",
+	{"base", "BaseResp", "FastRead"}:             "g_base_BaseResp_FastRead",
 }
 
 // library calls that are given a meaning (everything else fails)
@@ -100,6 +130,8 @@ const (
 	libSpanCopy     = "(*github.com/bytedance/gopkg/lang/span.spanCache).Copy"
 	libErrorf       = "fmt.Errorf"
 	libErrorsNew    = "errors.New"
+	libPEWrap       = modPath + "protocol/thrift.NewProtocolExceptionWithErr"
+	libPrepend      = modPath + "protocol/thrift.PrependError"
 	identityComment = "identity on the contents"
 )
 
@@ -115,20 +147,35 @@ type trErr struct {
 }
 
 type fnInfo struct {
-	spec    fnSpec
-	pkg     *packages.Package
-	decl    *ast.FuncDecl
-	obj     *types.Func
-	coqName string
-	state   int // 0 untouched, 1 in progress, 2 done, 3 failed
-	fail    string
-	text    string
-	params  []*types.Var
-	results []*types.Var
-	mutated []bool          // per parameter: stored into
-	globals []*types.Var    // package-level scalar variables read (transitively), leading parameters
-	errKeys map[string]bool // error values (ecode keys) the function or its callees can produce
-	errCmps []errCmp        // comparisons err == <error variable> to be validated at the end
+	spec                  fnSpec
+	pkg                   *packages.Package
+	decl                  *ast.FuncDecl
+	obj                   *types.Func
+	coqName               string
+	state                 int // 0 untouched, 1 in progress, 2 done, 3 failed
+	fail                  string
+	text                  string
+	params                []*types.Var
+	results               []*types.Var
+	mutated               []bool     // per parameter: threaded (stored into / pointer / mutated map): returned first
+	dropped               []bool     // per parameter: of an untranslatable type and never used in the body: no binder
+	recv                  *types.Var // receiver that is an abstract object (nil otherwise)
+	abs                   []*absRoot // abstract objects (receiver first, then parameters), see abstract.go
+	recvStruct            *types.Var // receiver *T for a struct T of translatable fields: one variable per field
+	recvFields            []*types.Var
+	externs               []*types.Func       // external functions with a given model (transitively), sorted
+	owned                 map[*types.Var]bool // local []byte variables made by make(...) and used only as x[i] / len(x)
+	addrOf                map[*types.Var]bool // local variables whose address is passed to a callee
+	hasLoop, selfRec      bool                // contains a for statement / calls itself
+	needsFuel, needsRFuel bool                // takes the loop fuel / the recursion fuel (transitively through callees)
+	loopText              []string            // the Fixpoints of its loops, in the order they must be defined
+	nErrCtor              map[string]int      // number of calls of each error constructor (fmt.Errorf ...) in the body
+	errCtorIx             map[ast.Node]int
+	binderTypes           []string        // Coq types of the binders that follow (rfuel) in the definition
+	resType               string          // res (...)
+	globals               []*types.Var    // package-level scalar variables read (transitively), leading parameters
+	errKeys               map[string]bool // error values (ecode keys) the function or its callees can produce
+	errCmps               []errCmp        // comparisons err == <error variable> to be validated at the end
 }
 
 type errCmp struct {
@@ -137,11 +184,13 @@ type errCmp struct {
 }
 
 type tr struct {
-	byObj  map[*types.Func]*fnInfo
-	all    []*fnInfo
-	order  []*fnInfo
-	ecodes map[string]string // qualified name -> code (decimal text)
-	repo   string
+	byObj      map[*types.Func]*fnInfo
+	all        []*fnInfo
+	order      []*fnInfo
+	ecodes     map[string]string // qualified name -> code (decimal text)
+	repo       string
+	pkgs       []*packages.Package
+	tableCache map[*types.Var]string
 }
 
 type fctx struct {
@@ -156,6 +205,15 @@ type fctx struct {
 	readMut   bool          // the statement reads a []byte parameter that is stored into
 	nestedMut bool          // a call that stores into a parameter occurs below the statement's top-level call
 	topCall   *ast.CallExpr // the call that IS the statement / its only right-hand side, if any
+
+	vars      map[string]*cvar         // every Coq variable name that stands for (a part of) a Go variable
+	loops     []*loopFrame             // enclosing for statements, innermost last
+	brk       []func(depth int) string // what `break` means here, innermost last
+	conts     []func(depth int) string // what `continue` means here, innermost last
+	endK      func(depth int) string   // what follows the last statement of the function
+	exiting   int                      // translating the target of a goto: control does not come back into the loops
+	nloop     int
+	loopCache map[*ast.BlockStmt]*loopFrame // a for statement reached along several paths is one Fixpoint
 }
 
 func (c *fctx) failf(n ast.Node, format string, a ...interface{}) {
@@ -261,20 +319,33 @@ func (c *fctx) coqType(n ast.Node, t types.Type) string {
 	if _, _, ok := intTypeInfo(t); ok {
 		return "Z"
 	}
+	if k, v, ok := mapKV(t); ok {
+		_, _, ki := intTypeInfo(k)
+		if !ki && !isString(k) {
+			c.failf(n, "map with key type %s", k)
+		}
+		if _, _, isMap := mapKV(v); isMap || isErrorIface(v) {
+			c.failf(n, "map with value type %s", v)
+		}
+		return "(gmap " + c.coqType(n, k) + " " + c.coqType(n, v) + ")"
+	}
 	c.failf(n, "unsupported type %s", t)
 	return ""
 }
 
 func (c *fctx) zero(n ast.Node, t types.Type) string {
-	switch c.coqType(n, t) {
+	switch ct := c.coqType(n, t); ct {
 	case "gerror":
 		return "gnil"
 	case "bool":
 		return "false"
 	case "bytes":
 		return "(nil : bytes)"
+	case "Z":
+		return "0"
+	default:
+		return "(None : " + strings.Trim(ct, "()") + ")" // the nil map
 	}
-	return "0"
 }
 
 func zlit(v constant.Value) string {
@@ -324,6 +395,7 @@ func (c *fctx) nameOf(obj types.Object) string {
 	}
 	c.used[n] = true
 	c.names[obj] = n
+	c.vars[n] = &cvar{name: n, root: obj}
 	return n
 }
 
@@ -439,6 +511,9 @@ func (c *fctx) identTerm(id *ast.Ident) string {
 		if isByteSlice(t) {
 			return "(nil : bytes)"
 		}
+		if _, _, ok := mapKV(t); ok {
+			return c.zero(id, t)
+		}
 		c.failf(id, "nil of type %s", t)
 	case *types.Var:
 		if gv, isG := c.pkgLevelVar(o); isG {
@@ -453,13 +528,20 @@ func (c *fctx) identTerm(id *ast.Ident) string {
 			}
 			c.failf(id, "package-level variable %s of type %s", gv.Name(), gv.Type())
 		}
-		c.coqType(id, o.Type())
-		for i, p := range c.f.params {
-			if p == o && c.f.mutated[i] {
-				c.readMut = true
-			}
+		if c.f.absOf(o) != nil {
+			c.failf(id, "%s stands for an abstract object (only its method calls are translated)", id.Name)
 		}
-		return c.nameOf(o)
+		if _, isPtr := ptrElem(o.Type()); isPtr {
+			c.failf(id, "pointer %s used as a value (only *%s, and passing %s on to a translated function)", id.Name, id.Name, id.Name)
+		}
+		if _, isStruct := structFields(o.Type()); isStruct {
+			c.failf(id, "struct variable %s used as a whole (only its fields are translated)", id.Name)
+		}
+		c.coqType(id, o.Type())
+		if c.isThreadedVar(o) {
+			c.readMut = true
+		}
+		return c.readVar(c.nameOf(o))
 	}
 	c.failf(id, "identifier %s (%T)", id.Name, obj)
 	return ""
@@ -510,10 +592,13 @@ func (c *fctx) mutParamName(id *ast.Ident) string {
 			if !c.f.mutated[i] {
 				c.failf(id, "internal: parameter %s not recorded as mutated", id.Name)
 			}
-			return c.nameOf(obj)
+			return c.assignVar(c.nameOf(obj))
 		}
 	}
-	c.failf(id, "store into %s, which is not a []byte parameter (aliasing of local slices is not modelled)", id.Name)
+	if obj != nil && c.f.owned[obj] {
+		return c.assignVar(c.nameOf(obj))
+	}
+	c.failf(id, "store into %s, which is neither a []byte parameter nor a local made by make([]byte, n) and used only as x[i] / len(x) (aliasing of local slices is not modelled)", id.Name)
 	return ""
 }
 
@@ -528,7 +613,7 @@ func (c *fctx) isMutatedParam(e ast.Expr) bool {
 			return true
 		}
 	}
-	return false
+	return obj != nil && c.f.owned[obj]
 }
 
 func (c *fctx) exprs(es []ast.Expr) (pre []string, terms []string) {
@@ -549,6 +634,9 @@ func (c *fctx) exprAs(e ast.Expr, want types.Type) (pre []string, term string) {
 				return nil, "gnil"
 			case isByteSlice(want):
 				return nil, "(nil : bytes)"
+			}
+			if _, _, ok := mapKV(want); ok {
+				return nil, c.zero(e, want)
 			}
 			c.failf(e, "nil of type %s", want)
 		}
@@ -584,7 +672,12 @@ func (c *fctx) expr(e ast.Expr) (pre []string, term string) {
 				return nil, c.errConst(x, qualName(gv))
 			}
 		}
+		if name, ok := c.fieldVar(x); ok {
+			return c.recvCheck(x.X), c.readVar(name)
+		}
 		c.failf(e, "selector expression %s", types.ExprString(e))
+	case *ast.StarExpr:
+		return nil, c.readVar(c.derefName(x))
 	case *ast.UnaryExpr:
 		p, a := c.expr(x.X)
 		t := c.info.TypeOf(e)
@@ -609,6 +702,16 @@ func (c *fctx) expr(e ast.Expr) (pre []string, term string) {
 	case *ast.BinaryExpr:
 		return c.binary(x)
 	case *ast.IndexExpr:
+		if tbl, ok := c.globalTable(x.X); ok {
+			p2, i := c.expr(x.Index)
+			t := c.fresh()
+			return append(p2, fmt.Sprintf("do %s <- gtable %s %s;", t, tbl, i)), t
+		}
+		if k, v, ok := mapKV(c.info.TypeOf(x.X)); ok {
+			p1, m := c.expr(x.X)
+			p2, i := c.exprAs(x.Index, k)
+			return append(p1, p2...), fmt.Sprintf("(gmap_get %s %s %s %s)", c.keyEqb(e, k), m, i, c.zero(e, v))
+		}
 		if !isBytesLike(c.info.TypeOf(x.X)) {
 			c.failf(e, "index expression on %s", c.info.TypeOf(x.X))
 		}
@@ -716,6 +819,20 @@ func (c *fctx) binary(x *ast.BinaryExpr) (pre []string, term string) {
 			}
 			p, a := c.expr(other)
 			return p, neg("(is_nil " + a + ")")
+		}
+		if _, _, isMap := mapKV(lt); isMap {
+			if id, ok := ast.Unparen(x.Y).(*ast.Ident); ok && id.Name == "nil" && (x.Op == token.EQL || x.Op == token.NEQ) {
+				p, a := c.expr(x.X)
+				return p, neg("(gmap_is_nil " + a + ")")
+			}
+			c.failf(x, "comparison %s on a map", x.Op)
+		}
+		if _, _, isMap := mapKV(rt); isMap {
+			if id, ok := ast.Unparen(x.X).(*ast.Ident); ok && id.Name == "nil" && (x.Op == token.EQL || x.Op == token.NEQ) {
+				p, a := c.expr(x.Y)
+				return p, neg("(gmap_is_nil " + a + ")")
+			}
+			c.failf(x, "comparison %s on a map", x.Op)
 		}
 		p1, a := c.expr(x.X)
 		p2, b := c.expr(x.Y)
@@ -860,6 +977,8 @@ func (c *fctx) call(x *ast.CallExpr) (pre []string, terms []string) {
 				n := c.fresh()
 				pre = append(append(p1, p2...), fmt.Sprintf("do (%s, %s) <- gcopy %s %s %s;", name, n, name, off, src))
 				return pre, []string{n}
+			case "make":
+				return c.makeCall(x)
 			case "panic":
 				c.failf(x, "panic(...) in expression position")
 			}
@@ -870,6 +989,7 @@ func (c *fctx) call(x *ast.CallExpr) (pre []string, terms []string) {
 	if fn == nil {
 		c.failf(x, "call of %s (not a declared function)", types.ExprString(x.Fun))
 	}
+	fn = fn.Origin()
 	full := fn.FullName()
 	switch {
 	case identityLib[full]:
@@ -888,65 +1008,51 @@ func (c *fctx) call(x *ast.CallExpr) (pre []string, terms []string) {
 		p2, v := c.expr(x.Args[1])
 		pre = append(append(p1, p2...), fmt.Sprintf("do %s <- gput %s %s (gbe %d %s);", name, name, off, putLib[full], v))
 		return pre, nil
-	case full == libErrorf || full == libErrorsNew:
-		// a freshly built, non-nil error; its arguments must be free of effects
-		for _, a := range x.Args {
-			if p, _ := c.expr(a); len(p) != 0 {
-				c.failf(x, "%s with an argument that can panic", full)
-			}
+	case full == libPEWrap:
+		// thrift.NewProtocolExceptionWithErr(err): panics on a nil err (err.Error()); otherwise the
+		// exception that wraps err (assumed not to be a *ProtocolException already, which would be
+		// returned as it is: the errors of a bufiox.Reader are not)
+		if len(x.Args) != 1 {
+			c.failf(x, "%s with %d arguments", full, len(x.Args))
 		}
-		key := fmt.Sprintf("%s.%s#%s", c.f.spec.pkg, c.f.spec.name, full)
-		return nil, []string{c.errConst(x, key)}
-	}
-	callee := c.t.byObj[fn]
-	if callee == nil {
-		c.failf(x, "call of %s, which is neither whitelisted nor a library function with a given meaning", full)
-	}
-	c.t.translate(callee)
-	if callee.state != 2 {
-		c.failf(x, "call of %s, whose translation failed", full)
-	}
-	for k := range callee.errKeys {
-		c.f.errKeys[k] = true
-	}
-	// receiver: only the empty struct BinaryProtocol (no state), dropped
-	var args []string
-	for _, g := range callee.globals {
-		args = append(args, globalName(g))
-	}
-	var pats []string
-	for i, a := range x.Args {
-		if i < len(callee.mutated) && callee.mutated[i] {
-			id, ok := ast.Unparen(a).(*ast.Ident)
-			if !ok {
-				c.failf(a, "argument for a parameter the callee stores into must be a []byte parameter of the caller")
-			}
-			c.noteMut(x)
-			n := c.mutParamName(id)
-			args = append(args, n)
-			pats = append(pats, n)
-			continue
-		}
-		p, t := c.exprAs(a, callee.params[i].Type())
-		pre = append(pre, p...)
-		args = append(args, t)
-	}
-	if x.Ellipsis.IsValid() || callee.obj.Type().(*types.Signature).Variadic() {
-		c.failf(x, "variadic call")
-	}
-	for range callee.results {
+		p, a := c.expr(x.Args[0])
 		t := c.fresh()
-		pats = append(pats, t)
-		terms = append(terms, t)
+		return append(p, fmt.Sprintf("do %s <- gpe_wrap %s;", t, a)), []string{t}
+	case full == libPrepend:
+		// thrift.PrependError(text, err): panics on a nil err (err.Error()); otherwise a new error of
+		// the same Thrift exception kind, identified by <code of this call site> + <code of err>
+		if len(x.Args) != 2 {
+			c.failf(x, "%s with %d arguments", full, len(x.Args))
+		}
+		pre = append(pre, c.pureArg(x.Args[0])...)
+		p, a := c.expr(x.Args[1])
+		key := c.errCtorKey(x, full)
+		if _, ok := c.t.ecodes[key]; !ok {
+			c.failf(x, "error value %q is not in the ecode table of coq/Lib/GoSem.v", key)
+		}
+		t := c.fresh()
+		return append(append(pre, p...), fmt.Sprintf("do %s <- gerr_prepend (ecode %q) %s;", t, key, a)), []string{t}
+	case errCtorLib[full]:
+		// a freshly built, non-nil error; its arguments must be free of effects (err.Error() on a
+		// nil err panics: checked)
+		for _, a := range x.Args {
+			pre = append(pre, c.pureArg(a)...)
+		}
+		return pre, []string{c.errConst(x, c.errCtorKey(x, full))}
 	}
-	pat := "_"
-	if len(pats) == 1 {
-		pat = pats[0]
-	} else if len(pats) > 1 {
-		pat = "(" + strings.Join(pats, ", ") + ")"
+	if callee := c.t.byObj[fn]; callee != nil {
+		return c.callTranslated(x, callee)
 	}
-	pre = append(pre, fmt.Sprintf("do %s <- %s;", pat, strings.TrimSpace(callee.coqName+" "+strings.Join(args, " "))))
-	return pre, terms
+	if name, ok := externalFns[full]; ok {
+		return c.callExternal(x, fn, name)
+	}
+	if sel, ok := ast.Unparen(x.Fun).(*ast.SelectorExpr); ok {
+		if root, path := c.absPath(sel.X); root != nil {
+			return c.callAbstract(x, root, joinPath(path, sel.Sel.Name), fn)
+		}
+	}
+	c.failf(x, "call of %s, which is neither whitelisted nor a library function with a given meaning", full)
+	return nil, nil
 }
 
 // ---------- statements ----------
@@ -973,16 +1079,38 @@ func tuple(ts []string) string {
 
 func (c *fctx) retTerms(vals []string) string {
 	var ts []string
+	if c.f.recv != nil {
+		ts = append(ts, c.readVar(c.nameOf(c.f.recv)))
+	}
+	for _, fv := range c.f.recvFields {
+		ts = append(ts, c.readVar(c.fieldName(c.f.recvStruct, fv)))
+	}
 	for i, p := range c.f.params {
 		if c.f.mutated[i] {
-			ts = append(ts, c.nameOf(p))
+			ts = append(ts, c.readVar(c.nameOf(p)))
 		}
 	}
-	return "Ok " + tuple(append(ts, vals...))
+	tup := tuple(append(ts, vals...))
+	if len(c.loops) > 0 {
+		// inside a loop Fixpoint: the function's result leaves the loop as inr
+		if !strings.HasPrefix(tup, "(") {
+			tup = "(" + tup + ")"
+		}
+		return "Ok (@@INR:" + c.loops[len(c.loops)-1].name + "@@" + tup + ")"
+	}
+	return "Ok " + tup
 }
 
 // assignTo binds a Go variable (local, parameter or named result)
 func (c *fctx) lhsName(e ast.Expr) string {
+	switch x := ast.Unparen(e).(type) {
+	case *ast.StarExpr: // *p = ... for a pointer parameter p
+		return c.assignVar(c.derefName(x))
+	case *ast.SelectorExpr: // s.f = ... for a local struct variable s
+		if name, ok := c.fieldVar(x); ok {
+			return c.assignVar(name)
+		}
+	}
 	id, ok := ast.Unparen(e).(*ast.Ident)
 	if !ok {
 		c.failf(e, "assignment to %s", types.ExprString(e))
@@ -1003,11 +1131,23 @@ func (c *fctx) lhsName(e ast.Expr) string {
 	}
 	for i, p := range c.f.params {
 		if p == v && c.f.mutated[i] {
-			c.failf(e, "assignment to the []byte parameter %s, which is also stored into", id.Name)
+			c.failf(e, "assignment to the parameter %s, which is also stored into / threaded", id.Name)
 		}
 	}
+	if c.f.owned[v] && c.info.Defs[id] == nil {
+		c.failf(e, "assignment to the local slice %s, which is stored into", id.Name)
+	}
+	if c.f.absOf(v) != nil {
+		c.failf(e, "assignment to %s, which stands for an abstract object", id.Name)
+	}
+	if _, isPtr := ptrElem(v.Type()); isPtr {
+		c.failf(e, "assignment to the pointer variable %s", id.Name)
+	}
+	if _, isStruct := structFields(v.Type()); isStruct {
+		c.failf(e, "assignment to the struct variable %s as a whole", id.Name)
+	}
 	c.coqType(e, v.Type())
-	return c.nameOf(v)
+	return c.assignVar(c.nameOf(v))
 }
 
 func (c *fctx) noteMut(x *ast.CallExpr) {
@@ -1018,7 +1158,7 @@ func (c *fctx) noteMut(x *ast.CallExpr) {
 
 func (c *fctx) checkOrder(n ast.Node) {
 	if c.readMut && c.nestedMut {
-		c.failf(n, "one expression both reads a []byte parameter and contains a call that stores into it: Go does not specify the order")
+		c.failf(n, "one expression both reads a variable that callees modify ([]byte parameter, *p, &x, map) and contains a call that modifies it: Go does not specify the order")
 	}
 	c.readMut, c.nestedMut, c.topCall = false, false, nil
 }
@@ -1050,9 +1190,14 @@ func (c *fctx) block(depth int, list []ast.Stmt, k func(depth int) string) strin
 				if r.Name() == "" || r.Name() == "_" {
 					c.failf(s, "bare return with unnamed results")
 				}
-				vals = append(vals, c.nameOf(r))
+				vals = append(vals, c.resultNames(r)...)
 			}
 			return ind(depth) + c.retTerms(vals) + "\n"
+		}
+		for _, r := range c.f.results {
+			if _, isStruct := structFields(r.Type()); isStruct {
+				c.failf(s, "return with operands in a function with a struct result (only the bare return is translated)")
+			}
 		}
 		if len(s.Results) == 1 && len(c.f.results) > 1 {
 			call, ok := s.Results[0].(*ast.CallExpr)
@@ -1066,6 +1211,18 @@ func (c *fctx) block(depth int, list []ast.Stmt, k func(depth int) string) strin
 		}
 		if len(s.Results) != len(c.f.results) {
 			c.failf(s, "return of %d values for %d results", len(s.Results), len(c.f.results))
+		}
+		for _, r := range s.Results {
+			// a returned map must not stay reachable through a parameter (the caller's argument)
+			if _, _, isMap := mapKV(c.info.TypeOf(r)); isMap {
+				if id, ok := ast.Unparen(r).(*ast.Ident); ok {
+					for _, p := range c.f.params {
+						if c.info.Uses[id] == p {
+							c.failf(s, "return of the map parameter %s (aliasing of maps is not modelled)", id.Name)
+						}
+					}
+				}
+			}
 		}
 		c.topCall = soleCall(s.Results)
 		pre, terms := c.exprsAs(s.Results, func(i int) types.Type { return c.f.results[i].Type() })
@@ -1097,6 +1254,13 @@ func (c *fctx) block(depth int, list []ast.Stmt, k func(depth int) string) strin
 		return out
 	case *ast.SwitchStmt:
 		return c.switchStmt(depth, s, rest)
+	case *ast.LabeledStmt:
+		// reached from above, or by a forward goto (branchStmt): the label itself means nothing
+		return c.block(depth, []ast.Stmt{s.Stmt}, rest)
+	case *ast.ForStmt:
+		return c.forStmt(depth, s, rest)
+	case *ast.BranchStmt:
+		return c.branchStmt(depth, s)
 	case *ast.DeclStmt:
 		gd, ok := s.Decl.(*ast.GenDecl)
 		if !ok || gd.Tok != token.VAR {
@@ -1113,8 +1277,18 @@ func (c *fctx) block(depth int, list []ast.Stmt, k func(depth int) string) strin
 					continue
 				}
 				obj := c.info.Defs[n].(*types.Var)
+				if isEmptyStruct(obj.Type()) {
+					continue // a value without state
+				}
 				val := c.zero(n, obj.Type())
 				if len(vs.Values) != 0 {
+					if _, _, isMap := mapKV(obj.Type()); isMap {
+						if y, ok := ast.Unparen(vs.Values[i]).(*ast.Ident); ok {
+							if _, isNil := c.info.Uses[y].(*types.Nil); !isNil {
+								c.failf(s, "initialisation of a map variable from the variable %s (aliasing of maps is not modelled)", y.Name)
+							}
+						}
+					}
 					p, t := c.exprAs(vs.Values[i], obj.Type())
 					pre = append(pre, p...)
 					val = t
@@ -1129,12 +1303,13 @@ func (c *fctx) block(depth int, list []ast.Stmt, k func(depth int) string) strin
 		if _, _, ok := intTypeInfo(t); !ok {
 			c.failf(s, "++/-- on %s", t)
 		}
+		_, cur := c.expr(s.X)
 		name := c.lhsName(s.X)
 		op := " + 1"
 		if s.Tok == token.DEC {
 			op = " - 1"
 		}
-		return ind(depth) + fmt.Sprintf("let %s := %s in\n", name, wrapTo(t, "("+name+op+")")) + rest(depth)
+		return ind(depth) + c.bindLine(s.X, name, wrapTo(t, "("+cur+op+")")) + "\n" + rest(depth)
 	case *ast.AssignStmt:
 		c.topCall = soleCall(s.Rhs)
 		pre := c.assign(s)
@@ -1168,7 +1343,9 @@ func (c *fctx) assign(s *ast.AssignStmt) []string {
 		if opTok == token.ILLEGAL || len(s.Lhs) != 1 {
 			c.failf(s, "assignment operator %s", s.Tok)
 		}
-		if _, ok := ast.Unparen(s.Lhs[0]).(*ast.Ident); !ok {
+		switch ast.Unparen(s.Lhs[0]).(type) {
+		case *ast.Ident, *ast.StarExpr, *ast.SelectorExpr:
+		default:
 			c.failf(s, "compound assignment to %s", types.ExprString(s.Lhs[0]))
 		}
 		// x op= e is x = x op e with x evaluated once (x is a plain variable here)
@@ -1178,12 +1355,41 @@ func (c *fctx) assign(s *ast.AssignStmt) []string {
 		pre, term := c.binary(be)
 		delete(c.info.Types, be)
 		name := c.lhsName(s.Lhs[0])
-		return append(pre, fmt.Sprintf("let %s := %s in", name, term))
+		return append(pre, c.bindLine(s.Lhs[0], name, term))
 	}
 	// store: buf[i] = e
 	if len(s.Lhs) == 1 && len(s.Rhs) == 1 {
 		if ix, ok := ast.Unparen(s.Lhs[0]).(*ast.IndexExpr); ok {
 			id, ok := ast.Unparen(ix.X).(*ast.Ident)
+			if k, v, isMap := mapKV(c.info.TypeOf(ix.X)); isMap && s.Tok == token.ASSIGN {
+				// m[k] = v : index and value are evaluated, then the entry is set (panics on a nil map)
+				var mname string
+				var chk []string
+				if sel, isSel := ast.Unparen(ix.X).(*ast.SelectorExpr); isSel {
+					n, isField := c.fieldVar(sel)
+					if !isField {
+						c.failf(s, "indexed assignment to %s", types.ExprString(ix.X))
+					}
+					mname, chk = n, c.recvCheck(sel.X)
+				} else {
+					var mv *types.Var
+					if ok {
+						mv, _ = c.info.Uses[id].(*types.Var)
+					}
+					if mv == nil {
+						c.failf(s, "indexed assignment to %s", types.ExprString(ix.X))
+					}
+					if _, isG := c.pkgLevelVar(mv); isG {
+						c.failf(s, "store into the package-level map %s", id.Name)
+					}
+					mname = c.nameOf(mv)
+				}
+				p1, i := c.exprAs(ix.Index, k)
+				p2, val := c.exprAs(s.Rhs[0], v)
+				cur := c.readVar(mname)
+				name := c.assignVar(mname)
+				return append(append(append(p1, p2...), chk...), fmt.Sprintf("do %s <- gmap_set %s %s %s;", name, cur, i, val))
+			}
 			if !ok || !isByteSlice(c.info.TypeOf(ix.X)) {
 				c.failf(s, "indexed assignment to %s", types.ExprString(ix.X))
 			}
@@ -1206,13 +1412,31 @@ func (c *fctx) assign(s *ast.AssignStmt) []string {
 		for i, l := range s.Lhs {
 			n := c.lhsName(l)
 			if n != "_" {
-				pre = append(pre, fmt.Sprintf("let %s := %s in", n, terms[i]))
+				pre = append(pre, c.bindLine(l, n, terms[i]))
 			}
 		}
 		return pre
 	}
 	if len(s.Lhs) != len(s.Rhs) {
 		c.failf(s, "assignment of %d values to %d variables", len(s.Rhs), len(s.Lhs))
+	}
+	for _, r := range s.Rhs {
+		if _, _, isMap := mapKV(c.info.TypeOf(r)); isMap {
+			switch y := ast.Unparen(r).(type) {
+			case *ast.CallExpr: // make(...) or the result of a call: a map nothing else refers to
+			case *ast.Ident:
+				if _, isNil := c.info.Uses[y].(*types.Nil); !isNil {
+					c.failf(s, "assignment of the map variable %s to another variable (aliasing of maps is not modelled)", y.Name)
+				}
+			default:
+				c.failf(s, "assignment of a map from %s (aliasing of maps is not modelled)", types.ExprString(r))
+			}
+		}
+	}
+	if len(s.Lhs) == 1 && len(s.Rhs) == 1 && isEmptyStruct(c.info.TypeOf(s.Lhs[0])) {
+		if cl, ok := ast.Unparen(s.Rhs[0]).(*ast.CompositeLit); ok && len(cl.Elts) == 0 {
+			return nil // x := T{} for a struct without fields: a value without state
+		}
 	}
 	// all right-hand sides are evaluated before any variable is assigned
 	pre, terms := c.exprsAs(s.Rhs, func(i int) types.Type { return c.info.TypeOf(s.Lhs[i]) })
@@ -1221,10 +1445,13 @@ func (c *fctx) assign(s *ast.AssignStmt) []string {
 		if n == "_" {
 			return pre
 		}
-		return append(pre, fmt.Sprintf("let %s := %s in", n, terms[0]))
+		return append(pre, c.bindLine(s.Lhs[0], n, terms[0]))
 	}
 	var names []string
 	for _, l := range s.Lhs {
+		if c.isRecvField(l) {
+			c.failf(s, "parallel assignment to a field of the receiver")
+		}
 		names = append(names, c.lhsName(l))
 	}
 	return append(pre, fmt.Sprintf("let '(%s) := (%s) in", strings.Join(names, ", "), strings.Join(terms, ", ")))
@@ -1251,11 +1478,6 @@ func (c *fctx) switchStmt(depth int, s *ast.SwitchStmt, rest func(int) string) s
 	var clauses []*ast.CaseClause
 	for _, st := range s.Body.List {
 		cc := st.(*ast.CaseClause)
-		for _, b := range cc.Body {
-			if br, ok := b.(*ast.BranchStmt); ok {
-				c.failf(br, "%s in a switch", br.Tok)
-			}
-		}
 		if cc.List == nil {
 			def = cc
 		} else {
@@ -1264,6 +1486,18 @@ func (c *fctx) switchStmt(depth int, s *ast.SwitchStmt, rest func(int) string) s
 	}
 	out := c.lines(depth, pre)
 	closeN := 0
+	// an unlabelled break inside a case body leaves the switch: what follows the switch comes next
+	// (and that continuation is translated outside the switch: with the break target popped)
+	nbrk := len(c.brk)
+	after := rest
+	rest = func(d int) string {
+		saved := c.brk
+		c.brk = c.brk[:nbrk:nbrk]
+		defer func() { c.brk = saved }()
+		return after(d)
+	}
+	c.brk = append(c.brk[:nbrk:nbrk], rest)
+	defer func() { c.brk = c.brk[:nbrk:nbrk] }()
 	for _, cc := range clauses {
 		var conds []string
 		for _, e := range cc.List {
@@ -1305,10 +1539,12 @@ func (t *tr) analyse(f *fnInfo, seen map[*fnInfo]bool) {
 		f.results = append(f.results, sig.Results().At(i))
 	}
 	f.mutated = make([]bool, len(f.params))
+	f.dropped = make([]bool, len(f.params))
 	if f.params == nil {
 		f.params = []*types.Var{}
 	}
 	info := f.pkg.TypesInfo
+	t.analyseExt(f, seen)
 	paramIdx := func(e ast.Expr) int {
 		e = ast.Unparen(e)
 		if se, ok := e.(*ast.SliceExpr); ok {
@@ -1369,8 +1605,17 @@ func (t *tr) analyse(f *fnInfo, seen map[*fnInfo]bool) {
 						f.mutated[i] = true
 					}
 				}
-				if callee := t.byObj[o]; callee != nil {
+				if callee := t.byObj[o.Origin()]; callee != nil {
 					t.analyse(callee, seen)
+					if callee == f {
+						f.selfRec, f.needsRFuel = true, true
+					}
+					f.needsFuel = f.needsFuel || callee.needsFuel
+					f.needsRFuel = f.needsRFuel || callee.needsRFuel
+					t.mapAbstract(f, callee, x)
+					for _, e := range callee.externs {
+						f.addExtern(e)
+					}
 					for _, g := range callee.globals {
 						addGlobal(g)
 					}
@@ -1387,7 +1632,7 @@ func (t *tr) analyse(f *fnInfo, seen map[*fnInfo]bool) {
 			}
 		case *ast.Ident:
 			if v, ok := info.Uses[x].(*types.Var); ok && !v.IsField() && v.Pkg() != nil && v.Parent() == v.Pkg().Scope() {
-				if _, _, isInt := intTypeInfo(v.Type()); isInt || isBool(v.Type()) {
+				if _, _, isInt := intTypeInfo(v.Type()); isInt || isBool(v.Type()) || isIntTable(v.Type()) {
 					addGlobal(v)
 				}
 			}
@@ -1404,7 +1649,8 @@ func (t *tr) translate(f *fnInfo) {
 		return
 	}
 	f.state = 1
-	c := &fctx{t: t, f: f, info: f.pkg.TypesInfo, names: map[types.Object]string{}, used: map[string]bool{}}
+	c := &fctx{t: t, f: f, info: f.pkg.TypesInfo, names: map[types.Object]string{}, used: map[string]bool{},
+		vars: map[string]*cvar{}, loopCache: map[*ast.BlockStmt]*loopFrame{}}
 	defer func() {
 		if r := recover(); r != nil {
 			e, ok := r.(trErr)
@@ -1417,46 +1663,86 @@ func (t *tr) translate(f *fnInfo) {
 	}()
 	t.analyse(f, map[*fnInfo]bool{})
 	sig := f.obj.Type().(*types.Signature)
-	if recv := sig.Recv(); recv != nil {
+	if recv := sig.Recv(); recv != nil && f.recv == nil && f.recvStruct == nil {
 		st, ok := recv.Type().Underlying().(*types.Struct)
 		if !ok || st.NumFields() != 0 {
-			c.failf(f.decl, "receiver of type %s (only methods of an empty struct value are translated)", recv.Type())
+			c.failf(f.decl, "receiver of type %s (only methods of an empty struct value, or of a struct of abstract objects, are translated)", recv.Type())
 		}
 	}
 	if sig.Variadic() || sig.TypeParams() != nil {
 		c.failf(f.decl, "variadic or generic function")
 	}
-	var binders []string
+	if why := t.checkPointerCallSites(f); why != "" {
+		c.failf(f.decl, "pointer parameter: %s", why)
+	}
+	binders := append(c.absBinders(f), c.extBinders(f)...)
+	if f.needsRFuel {
+		binders = append(binders, "(rfuel : nat)")
+	}
+	var tail []string // the binders after the recursion fuel, and their types
+	addBinder := func(name, typ string) {
+		tail = append(tail, fmt.Sprintf("(%s : %s)", name, typ))
+		f.binderTypes = append(f.binderTypes, typ)
+	}
+	if f.needsFuel {
+		addBinder("fuel", "nat")
+	}
 	for _, g := range f.globals {
-		binders = append(binders, fmt.Sprintf("(%s : %s)", globalName(g), c.coqType(f.decl, g.Type())))
+		if isIntTable(g.Type()) {
+			addBinder(globalName(g), "list Z")
+			continue
+		}
+		addBinder(globalName(g), c.coqType(f.decl, g.Type()))
+	}
+	if f.recv != nil {
+		addBinder(c.nameOf(f.recv), f.absOf(f.recv).stName())
+	}
+	if f.recvStruct != nil {
+		addBinder(c.isnilName(), "bool")
+		for _, fv := range f.recvFields {
+			addBinder(c.fieldName(f.recvStruct, fv), c.coqType(f.decl, fv.Type()))
+		}
 	}
 	for i, p := range f.params {
+		if f.dropped[i] {
+			continue
+		}
 		if p.Name() == "" || p.Name() == "_" {
-			binders = append(binders, fmt.Sprintf("(_ : %s)", c.coqType(f.decl, p.Type())))
+			addBinder("_", c.coqType(f.decl, p.Type()))
 			if f.mutated[i] {
 				c.failf(f.decl, "internal: unnamed mutated parameter")
 			}
 			continue
 		}
-		binders = append(binders, fmt.Sprintf("(%s : %s)", c.nameOf(p), c.coqType(f.decl, p.Type())))
+		n := c.nameOf(p)
+		addBinder(n, c.varCoqType(f.decl, c.vars[n]))
 	}
+	binders = append(binders, tail...)
 	var rts []string
+	if f.recv != nil {
+		rts = append(rts, f.absOf(f.recv).stName())
+	}
+	for _, fv := range f.recvFields {
+		rts = append(rts, c.coqType(f.decl, fv.Type()))
+	}
 	for i, p := range f.params {
 		if f.mutated[i] {
-			if !isByteSlice(p.Type()) {
+			_, isPtr := ptrToInt(p.Type())
+			_, _, isMap := mapKV(p.Type())
+			if !isByteSlice(p.Type()) && !isPtr && !isMap && f.absOf(p) == nil {
 				c.failf(f.decl, "store into parameter %s of type %s", p.Name(), p.Type())
 			}
-			rts = append(rts, "bytes")
+			rts = append(rts, c.varCoqType(f.decl, c.vars[c.nameOf(p)]))
 		}
 	}
 	for _, r := range f.results {
-		rts = append(rts, c.coqType(f.decl, r.Type()))
+		rts = append(rts, c.resultTypes(f.decl, r)...)
 	}
 	rt := "unit"
 	if len(rts) > 0 {
 		rt = strings.Join(rts, " * ")
 	}
-	// named results start at their zero values
+	f.resType = rt
 	// named results start at their zero values (bound only when the body reads them: by name,
 	// or through a bare return)
 	var pre []string
@@ -1479,23 +1765,37 @@ func (t *tr) translate(f *fnInfo) {
 	})
 	for _, r := range f.results {
 		if r.Name() != "" && r.Name() != "_" && (bare || readsResults[r]) {
+			if fs, ok := structFields(r.Type()); ok {
+				for _, fv := range fs {
+					pre = append(pre, fmt.Sprintf("let %s := %s in", c.fieldName(r, fv), c.zero(f.decl, fv.Type())))
+				}
+				continue
+			}
 			pre = append(pre, fmt.Sprintf("let %s := %s in", c.nameOf(r), c.zero(f.decl, r.Type())))
 		}
 	}
-	body := c.lines(1, pre) + c.block(1, f.decl.Body.List, func(depth int) string {
+	d0 := 1
+	if f.selfRec {
+		d0 = 2
+	}
+	c.endK = func(depth int) string {
 		if len(f.results) != 0 {
 			c.failf(f.decl, "control reaches the end of a function with results")
 		}
 		return ind(depth) + c.retTerms(nil) + "\n"
-	})
+	}
+	body := c.lines(d0, pre) + c.block(d0, f.decl.Body.List, c.endK)
 	// err == K is decided on codes: sound when every error value that can reach the comparison
 	// and is not K has another code.  Error values reach it only from this function's own
-	// constants and from its callees (no error-typed parameters).
+	// constants and from its callees (no error-typed parameters, no abstract objects).
 	for _, cmp := range f.errCmps {
 		for _, p := range f.params {
 			if isErrorIface(p.Type()) {
 				c.failf(cmp.n, "comparison of error values in a function with an error-typed parameter")
 			}
+		}
+		if len(f.abs) > 0 {
+			c.failf(cmp.n, "comparison of error values in a function that calls methods of abstract objects")
 		}
 		for k := range f.errKeys {
 			if k != cmp.key && t.ecodes[k] == t.ecodes[cmp.key] {
@@ -1504,11 +1804,49 @@ func (t *tr) translate(f *fnInfo) {
 		}
 	}
 	var sb strings.Builder
+	for _, l := range f.loopText {
+		sb.WriteString(l)
+		sb.WriteString("\n")
+	}
 	fmt.Fprintf(&sb, "(* %s  %s *)\n", c.relpos(f.decl), signatureText(f))
 	var notes []string
+	for _, r := range f.abs {
+		var ms []string
+		for _, m := range r.methods {
+			ms = append(ms, fmt.Sprintf("%s.%s = %s", r.v.Name(), m.path, r.mName(m.path)))
+		}
+		notes = append(notes, fmt.Sprintf("%s is an abstract object with state %s, threaded (first components of the result); its methods are given: %s", r.v.Name(), r.stName(), strings.Join(ms, ", ")))
+	}
+	if f.recvStruct != nil {
+		notes = append(notes, fmt.Sprintf("the receiver %s is a pointer to a struct: %s says whether it is nil (then every p.f panics), one binder per field; the final fields are the first components of the result", f.recvStruct.Name(), c.isnilName()))
+	}
+	for _, e := range f.externs {
+		notes = append(notes, fmt.Sprintf("%s is given: parameter %s", shortFull(e.FullName()), externalFns[e.FullName()]))
+	}
+	if f.selfRec {
+		notes = append(notes, "recursive: rfuel bounds the depth of the recursion (Err gfuel when exhausted)")
+	} else if f.needsRFuel {
+		notes = append(notes, "rfuel: handed to the recursive functions it calls")
+	}
+	if f.needsFuel {
+		notes = append(notes, "fuel: handed to every for statement, one unit per iteration (Err gfuel when exhausted)")
+	}
 	for i, p := range f.params {
-		if f.mutated[i] {
-			notes = append(notes, fmt.Sprintf("stores into %s: its final contents are the first component of the result", p.Name()))
+		if f.dropped[i] {
+			notes = append(notes, fmt.Sprintf("the parameter %s is never used: no binder", p.Name()))
+			continue
+		}
+		if f.mutated[i] && f.absOf(p) == nil {
+			switch {
+			case isByteSlice(p.Type()):
+				notes = append(notes, fmt.Sprintf("stores into %s: its final contents are the first component of the result", p.Name()))
+			default:
+				if _, isPtr := ptrToInt(p.Type()); isPtr {
+					notes = append(notes, fmt.Sprintf("%s is a non-nil pointer: the binder is the value of *%s, its final value is returned with the leading components of the result", p.Name(), p.Name()))
+				} else {
+					notes = append(notes, fmt.Sprintf("stores into the map %s: its final contents are returned with the leading components of the result", p.Name()))
+				}
+			}
 		}
 	}
 	for _, g := range f.globals {
@@ -1517,7 +1855,12 @@ func (t *tr) translate(f *fnInfo) {
 	for _, n := range notes {
 		fmt.Fprintf(&sb, "(* %s *)\n", n)
 	}
-	fmt.Fprintf(&sb, "Definition %s %s : res (%s) :=\n%s.\n", f.coqName, strings.Join(binders, " "), rt, strings.TrimRight(body, "\n"))
+	if f.selfRec {
+		fmt.Fprintf(&sb, "Fixpoint %s %s {struct rfuel} : res (%s) :=\n  match rfuel with\n  | O => Err gfuel\n  | S rfuel' =>\n%s\n  end.\n",
+			f.coqName, strings.Join(binders, " "), rt, strings.TrimRight(body, "\n"))
+	} else {
+		fmt.Fprintf(&sb, "Definition %s %s : res (%s) :=\n%s.\n", f.coqName, strings.Join(binders, " "), rt, strings.TrimRight(body, "\n"))
+	}
 	f.text = sb.String()
 	f.state = 2
 	t.order = append(t.order, f)
@@ -1536,6 +1879,12 @@ func recvName(fd *ast.FuncDecl) string {
 	for {
 		switch x := t.(type) {
 		case *ast.StarExpr:
+			t = x.X
+			continue
+		case *ast.IndexExpr: // generic receiver T[P]
+			t = x.X
+			continue
+		case *ast.IndexListExpr:
 			t = x.X
 			continue
 		case *ast.Ident:
@@ -1568,7 +1917,61 @@ func header() string {
        qualified name through GoSem.ecode; fmt.Errorf(...) builds a non-nil error identified by
        the function it occurs in; nil is None;
      * a package-level bool / integer variable read by a function is a leading parameter
-       gv_<name> (its value at the time of the call). *)
+       gv_<name> (its value at the time of the call); a package-level array of integers that
+       the package only ever reads by indexing (checked over the whole package) is a leading
+       parameter gv_<name> : list Z, indexed with a bounds check (GoSem.gtable).
+   Phase 2 (loops, recursion, pointers, maps, abstract objects):
+     * a for statement (for init; cond; post {body}, for cond {body}, for {body}; no range, no
+       labels) is a standalone Fixpoint <func>_loop<k> on its own fuel lf, one unit per
+       iteration; its arguments are the variables declared outside that an iteration reads, then
+       those it assigns (loop-carried); it returns inl (final carried values) when the condition
+       fails or on break, inr (the function's result) on return.  Out of fuel is Err gfuel, the
+       only Err a generated function ever produces.  A function that contains loops (or calls one
+       that does) takes one leading argument fuel : nat, which is the initial lf of every loop
+       it starts; the equivalence lemmas show which fuel is enough;
+     * a function that calls itself is a Fixpoint on a leading argument rfuel : nat (one unit per
+       nested call, Err gfuel when exhausted); loops that contain the recursive call take the
+       function (already applied to rfuel') as their argument rec_;
+     * a parameter p of type *T (T an integer type) stands for a non-nil pointer to a variable
+       that nothing else refers to during the call: the binder is the value of *p, its final
+       value is returned with the leading components of the result; every call site in the
+       package must pass &x for a local variable x (or hand a pointer parameter on), else the
+       function is refused;
+     * a Go map is GoSem.gmap: None is the nil map, Some l the entries in assignment order,
+       newest first, a lookup returns the first match; m[k] = v panics on the nil map; a map
+       parameter that is stored into is threaded like a []byte parameter; every assignment that
+       would make two variables refer to one map is refused;
+     * a local variable of a struct type is one variable per field (v_<var>_<Field>); a struct
+       result is returned field by field;
+     * x := make([]byte, n), with x used only as x[i] and len(x), is a local buffer that stores
+       thread like a []byte parameter;
+     * a parameter of an interface type (other than error) or of a type parameter type, and a
+       receiver that is a struct of such values, is an ABSTRACT OBJECT: its state is a value of
+       the type parameter St_<name> of the generated definition, each method M called on it is
+       a parameter m_<name>_<path>_M : St -> args -> res (St * results), the state is threaded
+       through every call and returned first.  This assumes that distinct abstract objects do
+       not share state and that nothing else changes the state during the call.  A pointer
+       receiver to a struct of abstract objects is assumed non-nil;
+     * thrift.NewProtocolExceptionWithErr(err) is GoSem.gpe_wrap: panics on a nil err, otherwise
+       the exception wrapping err, identified by gwrapped c (err is assumed not to be a
+       *ProtocolException already; the errors of a bufiox.Reader are not);
+     * a pointer receiver p to a struct with fields of translated types is a flag v_p_isnil and
+       one variable per field; p.f panics when the flag is set (GoSem.gptr_check / gptr_set);
+       the final fields are returned first.  Assumes that nothing else refers to the struct
+       during the call;
+     * goto L, for a label L of the function's outermost block that comes later, is followed by
+       the statements from L to the end of the function (backward gotos are refused);
+     * x := T{} / var x T for a struct T without fields binds nothing; methods of T are called
+       without a receiver argument;
+     * calls of the functions in the table externalFns (thrift.Binary.Skip) are calls of a
+       function parameter x_<name> of the generated definition: sound when the Go function is a
+       deterministic function of its arguments that keeps no state and does not store into them;
+     * thrift.PrependError(text, err) is GoSem.gerr_prepend: panics on a nil err, otherwise an
+       error identified by the code of the call site plus the code of err;
+     * fmt.Errorf / errors.New / thrift.NewProtocolException build a non-nil error identified by
+       <pkg>.<func>#<constructor>[#k] (k-th call of that constructor in the function when there
+       are several); their arguments must be free of effects, except err.Error(), which panics
+       when err is nil (GoSem.gerr_deref). *)
 From GV Require Import Lib.Bytes Lib.Res Lib.GoSem.
 Open Scope Z_scope.
 `
@@ -1654,7 +2057,7 @@ func main() {
 		os.Exit(2)
 	}
 
-	t := &tr{byObj: map[*types.Func]*fnInfo{}, ecodes: ecodes, repo: absRepo}
+	t := &tr{byObj: map[*types.Func]*fnInfo{}, ecodes: ecodes, repo: absRepo, pkgs: pkgs, tableCache: map[*types.Var]string{}}
 	decls := map[fnSpec]*fnInfo{}
 	for _, p := range pkgs {
 		short, ok := pkgShort[p.PkgPath]
@@ -1679,12 +2082,26 @@ func main() {
 				if *allOf != "" {
 					whitelist = append(whitelist, sp)
 				}
-				decls[sp] = &fnInfo{spec: sp, pkg: p, decl: fd, obj: obj, coqName: "g_" + short + "_" + fd.Name.Name, errKeys: map[string]bool{}}
+				cn := "g_" + short + "_" + fd.Name.Name
+				if o, ok := coqNameOf[sp]; ok {
+					cn = o
+				}
+				decls[sp] = &fnInfo{spec: sp, pkg: p, decl: fd, obj: obj, coqName: cn, errKeys: map[string]bool{}}
 			}
 		}
 	}
 	var missing []string
 	names := map[string]bool{}
+	seenName := map[string]bool{}
+	for _, sp := range whitelist {
+		if sp.recv != "" {
+			k := sp.pkg + "." + sp.name
+			if seenName[k] {
+				ambiguousName[k] = true
+			}
+			seenName[k] = true
+		}
+	}
 	for _, sp := range whitelist {
 		f := decls[sp]
 		if f == nil {
